@@ -26,6 +26,8 @@ BeforeOnLine(toks, k) == SelectSeq(SubSeq(toks, 1, k - 1), LAMBDA t : t.ln = tok
 
 (* ---- the contract (weakest reading: judged against the line printed above the carets) ---- *)
 \* bad = index of the offending token, 0 = unexpected end of input
+\* the offending token as written in the source (the lexer's match); token VALUES may have been rewritten by lexer actions
+Lex(t) == IF "lex" \in DOMAIN t THEN t.lex ELSE t.val
 CaretOK(toks, bad, msg) ==
   LET pl == msg.lines[Len(msg.lines)]
       a  == msg.dashes
@@ -35,9 +37,9 @@ CaretOK(toks, bad, msg) ==
           /\ a = Len(pl) + 1                                   \* just after the last printed character
           /\ Len(pl) > 0 /\ pl[Len(pl)] # SP                    \* ... which is the last token's last character
           /\ Squeeze(pl) = Squeeze(Concat(Vals(OnLine(toks, toks[Len(toks)].ln))))
-     ELSE /\ b = Len(toks[bad].val) /\ b >= 1
+     ELSE /\ b = Len(Lex(toks[bad])) /\ b >= 1
           /\ a >= 1 /\ a + b - 1 <= Len(pl)
-          /\ SubSeq(pl, a, a + b - 1) = toks[bad].val           \* the carets select the token's characters
+          /\ SubSeq(pl, a, a + b - 1) = Lex(toks[bad])          \* the carets select the token's characters AS WRITTEN
           /\ Squeeze(SubSeq(pl, 1, a - 1)) = Squeeze(Concat(Vals(BeforeOnLine(toks, bad))))  \* ... of that occurrence
           /\ Squeeze(pl) = Squeeze(Concat(Vals(OnLine(toks, toks[bad].ln))))   \* the line is reproduced
 
